@@ -45,6 +45,10 @@ CHECKS = {
    technique=TECH + "duplicate-delivery fault on the first tick: replicas R_k receive k extra leading copies of the first element (k in {1,2,n-1,n,n+1,3n,1000}, thorough up to 10^6); constancy during the duplicated prefix (exact for selections/signals, drift-free allowance for arithmetic) and replica agreement with R_0 afterwards; ill-conditioned steps identified by a few-ulp input perturbation replica",
    text="Every method, wrapper, MA kind and indicator with seeded parameters, initial values of any magnitude/sign/zero, fault-feed continuations. The allowance for arithmetic outputs does not grow with the number of copies, so unbounded drift is detected at large k (thorough).",
    note="Allowance 2*D(0) with the largest frozen method constant; signals compared exactly while values are bit-identical and outside the allowance of zero (three-valued logic, DESIGN.md §3.4); steps whose value moves more than the allowance under a few-ulp perturbation of the inputs are exempt (ill-conditioned). Known findings: TrendStrengthIndex on constant input, RVI on zero-range stretches."),
+ "C17": dict(level="exploration", design="§4 C17",
+   technique=TECH + "converter runs with injected boundary-landing price faults for Renko (price exactly on / one ulp below / above the next brick boundary read from the live serialized state, k bricks away, multi-brick jumps, reversals), exactly-once-emission and conservation oracles; CollapseTimeframe streaming vs batch collapse on the whole stream and seeded sub-ranges; HeikinAshi validity monitor",
+   text="Seeded search over candle streams, periods 1..40, brick sizes in [eps,1) and all price sources; per-step oracles: no panic, emission iff boundary reached, contiguity, equal relative size, one direction, volume conservation, iterator consistency; collapse aggregation and batch/streaming equality.",
+   note="Boundaries are read from Renko's serialized state through the serde seam (no hook). The aggregated OHLCV view of RenkoOutput is outside the property's statement and only counted as an observation (its close() is base + size*len although bricks are relative)."),
 }
 NA = {
  "C16": "Action algebra is a total, stateless algebra over a finite domain: no history, state, fault, replica or schedule for a simulator to drive; the fitting technique (exhaustive enumeration) is model checking, which this task excludes (DESIGN.md §5).",
